@@ -9,7 +9,7 @@ quantities equal those of a fresh graph therefore depends exactly on whether the
 from __future__ import annotations
 import ast
 from ..core import expr as X
-from ..core.interp import Interp, Obj, FuncRef, Opaque, RaiseSignal
+from ..core.interp import ArrBox, Interp, Obj, FuncRef, Opaque, RaiseSignal
 from ..core.report import AnalysisError
 from .common import need_class, need_func
 from .c13 import make_interp, constructor_defaults, call, Sys
@@ -259,13 +259,18 @@ def run_layered(chk, repo, rule='R13.7'):
     for obliq_on in ((True,) if chk.tier == 'quick' else (True, False)):
       for real in (False, True):
         model = 'layered world (core not tidal, mantle and crust tidal), obliquity tides ' + ('on' if obliq_on else 'off') + (', the repository\'s own model holders' if real else '')
-        for seq in (real_seqs if real else seqs):
+        array_seqs = [('crust.set_temperature',), ('mantle.set_temperature', 'crust.set_temperature'), ('crust.set_temperature', 'crust.set_temperature'),
+                      ('core.set_temperature', 'crust.set_temperature', 'again: core.set_temperature'), ('orbit.set_eccentricity', 'mantle.set_temperature')]
+        for arrays, seq in [(False, q_) for q_ in (real_seqs if real else seqs)] + ([] if real else [(True, q_) for q_ in array_seqs]):
             nseq += 1
             st0 = state_atoms('0', layer_names)
             final = dict(st0)
+            if arrays:
+                model_ = model; model = model_ + ', array-valued state'
 
-            def mk_interp(fork=None):
+            def mk_interp(fork=None, arrays=arrays):
                 it = make_interp(repo)
+                it.array_mode = arrays
                 if fork is not None: it.hooks['fork'] = fork
                 if real:
                     prev = it.hooks.get('call')
@@ -279,23 +284,25 @@ def run_layered(chk, repo, rule='R13.7'):
 
             def history(fork, seq=seq, st0=st0, final=final):
                 it = mk_interp(fork)
-                s = build(repo, it, st0, obliq_on, layer_names, real_holders=real)
-                full_init(it, s, st0, layer_names)
+                box = (lambda v_: ArrBox(v_) if isinstance(v_, X.Node) else v_) if arrays else (lambda v_: v_)
+                st0b = {k_: box(v_) for k_, v_ in st0.items()} if arrays else st0
+                s = build(repo, it, st0b, obliq_on, layer_names, real_holders=real)
+                full_init(it, s, st0b, layer_names)
                 sent = {}
                 for i, mname in enumerate(seq):
                     again = mname.startswith('again: ')          # the value of an earlier step is sent once more (A ; B ; A)
                     key, fn_ = M[mname[7:] if again else mname]
                     newv = sent[mname[7:]] if again else X.atom(f'{key}_new{i + 1}', 'pos' if key[0] in 'eaT' else 'real')
                     sent[mname] = newv
-                    fn_(it, s, newv)
+                    fn_(it, s, box(newv))
                     final[key] = newv
-                return exposed(s)
+                return {q_: getattr(v_, 'v', v_) for q_, v_ in exposed(s).items()}
 
             def fresh(fork):
-                it2 = mk_interp(fork)
+                it2 = mk_interp(fork, arrays=False)          # the reference: a fresh world in the final state, element by element (scalar semantics)
                 sf = build(repo, it2, final, obliq_on, layer_names, real_holders=real)
                 full_init(it2, sf, final, layer_names)
-                return exposed(sf)
+                return {q_: getattr(v_, 'v', v_) for q_, v_ in exposed(sf).items()}
             try:
                 from .c13 import explore_history
                 from ..core.interp import PathExplorer
@@ -336,7 +343,8 @@ def run_layered(chk, repo, rule='R13.7'):
                     break
             inst = f'{model}: after {" ; ".join(seq)} every exposed quantity (global and per layer) equals that of a fresh world in the final state'
             chk.ob(rule, inst, not bad, '; '.join(bad[:4]), mt.rel(), key=f'{rule}|{model}|{"+".join(seq)}',
-                   method='abstract object graph (' + ('real model holders, numeric laws uninterpreted' if real else 'stubbed model holders') + ') + GF(p^2) PIT')
+                   method='abstract object graph (' + ('real model holders, numeric laws uninterpreted' if real else 'stubbed model holders') + (', arrays as mutable cells' if arrays else '') + ') + GF(p^2) PIT')
+            if arrays: model = model_
     chk.note_analysed('layered mutator sequences', nseq)
     return nseq
 
